@@ -53,6 +53,17 @@ theorem ts_else_of (d : Nat) (els : Body)
         Gen.Nesting.tsNestingTypes, docB, tsVisitL_append] at hB ⊢ <;>
       (try simp [hB]) <;> (try simp [docB] at hc ⊢) <;> omega
 
+theorem ts_default_of (d : Nat) (dflt : Body)
+    (hB : tsVisitL incTs d (toTsB dflt) = docB 1 d dflt) :
+    tsVisitL incTs d (tsDefault (toTsB dflt)) = docB 1 d dflt := by
+  cases dflt with
+  | nil => simp [toTsB, tsDefault, tsVisitL, docB]
+  | cons c r =>
+    have hc := le_docC 1 d c
+    simp [tsDefault, toTsB, tsVisit, tsVisitL, tsl, TSL.ofList, tk, incTs,
+        Gen.Nesting.tsNestingTypes, docB, tsVisitL_append] at hB ⊢
+    omega
+
 theorem ts_finally_of (d : Nat) (fin : Body)
     (hB : tsVisitL incTs d (toTsB fin) = docB 1 d fin) :
     tsVisitL incTs d (toTsFinally fin) = docB 1 d fin := by
@@ -70,6 +81,17 @@ theorem ts_finally_of (d : Nat) (fin : Body)
 macro "rs_unfold" : tactic => `(tactic|
   simp [toRs, toRsE, toRsB, toRsElse, toRsArms, tsVisit, tsVisitL, tsl, TSL.ofList, tk,
         rsBlockOf, rsCond, rsCall, rsExprStmt, incRs, Gen.Nesting.rsNestingTypes, docC, docB, docA, tsVisitL_append] )
+
+theorem rs_default_of (d : Nat) (dflt : Body)
+    (hB : tsVisitL incRs d (toRsB dflt) = docB 1 d dflt) :
+    tsVisitL incRs d (rsDefault (toRsB dflt)) = docB 1 d dflt := by
+  cases dflt with
+  | nil => simp [toRsB, rsDefault, tsVisitL, docB]
+  | cons c r =>
+    have hc := le_docC 1 d c
+    simp [rsDefault, toRsB, tsVisit, tsVisitL, tsl, TSL.ofList, tk, rsBlockOf, incRs,
+        Gen.Nesting.rsNestingTypes, docB, tsVisitL_append] at hB ⊢
+    omega
 
 theorem rs_of_E (d : Nat) (c : Ctl) (hE : tsVisit incRs d (toRsE c) = docC 1 d c) :
     tsVisit incRs d (toRs c) = docC 1 d c := by
@@ -218,6 +240,17 @@ theorem py_handlers (d : Nat) :
       have ih := py_handlers d r
       py_unfold
       simp [ih]
+
+theorem pyCs_MatchAs : pyCs "MatchAs" = false := by decide
+
+theorem py_default (d : Nat) (kids : PyL) :
+    pyVisitL pyCs d (pyDefaultCase kids) =
+      match kids with
+      | .nil => 0
+      | .cons _ _ => max (d+1) (pyVisitL pyCs (d+1) kids) := by
+  cases kids with
+  | nil => simp [pyDefaultCase, pyVisitL]
+  | cons h t => simp [pyDefaultCase, pyVisitL, pyVisit, pyCs_MatchAs]
 
 theorem py_cases (d : Nat) :
     (a : Arms) → pyVisitL pyCs d (toPyCases a) = if a.isNil then 0 else max (d+1) (pyArms pyCs (d+1) a)
